@@ -77,7 +77,7 @@ def build(seed, run, overrides=None):
     knobs["p_new"] = rng.choice([0.2, 0.3])
     # renderable statements need a few clauses: bias to query builders
     knobs["focus"] = rng.choice(["qb", "qb", "qb", "any", "term", "setop", "ddl"])
-    knobs["p_leaf"] = rng.choice([0.0, 0.05, 0.15])
+    knobs["p_leaf"] = rng.choice([0.0, 0.1, 0.3])
     knobs["p_stmt"] = rng.choice([0.3, 0.6, 0.9])
     if overrides:
         knobs.update(overrides)
